@@ -213,6 +213,14 @@ pub fn payloads() -> Vec<Payload> {
     v.push(p("smb2-negotiate", appsmb::smb2_negotiate(&h2, &[0x0202, 0x0210, 0x0300], &[7; 16]), Via::Both, true));
     let h2s = Smb2Hdr::new(1);
     v.push(p("smb2-setup", appsmb::smb2_session_setup(&h2s, &[0x60, 0x28, 0x06, 0x06]), Via::Both, true));
+    // a reconnecting client: SessionId 0 in the header, the previous session's id in the request
+    {
+        let mut h = Smb2Hdr::new(1);
+        h.session_id = 0;
+        let mut m = appsmb::smb2_session_setup(&h, &[0x60, 0x28, 0x06, 0x06]);
+        m[4 + 64 + 16..4 + 64 + 24].copy_from_slice(&0x1122_3344_5566_7788u64.to_le_bytes());
+        v.push(p("smb2-setup-reconnect", m, Via::Both, true));
+    }
     let xid = 0x72fe1d13;
     for (name, vers, proc_) in [
         ("rpc-nmap", 104316u32, 0u32),
@@ -357,7 +365,12 @@ pub fn stun_attr_shapes() -> Vec<Vec<u8>> {
             let a = stun_attr(*t, val);
             v.push(stun_magic(&a, &ID12));
             v.push(stun_magic(&[a.clone(), pad.clone()].concat(), &ID12));
-            v.push(stun_magic(&[pad.clone(), a].concat(), &ID12));
+            v.push(stun_magic(&[pad.clone(), a.clone()].concat(), &ID12));
+            // ... and IN FRONT OF a CHANGE-REQUEST (change port): no attribute ends the list
+            let cr = stun_attr(3, &[0, 0, 0, 2]);
+            v.push(stun_magic(&[a.clone(), cr.clone(), pad.clone()].concat(), &ID12));
+            v.push(stun_magic(&[pad.clone(), a.clone(), cr.clone()].concat(), &ID12));
+            v.push(stun_classic(&[a, cr].concat(), &ID16));
         }
     }
     v
